@@ -263,6 +263,7 @@ def run(chk):
   chk.extra['exhaustive'] = True
   chk.extra['pairs'] = len(table)
   chk.extra['paths_explored'] = paths
+  chk.more_evaluations += paths
   for (ca, cb), res in sorted(table.items()):
     name = 'Unify(%s, %s)' % (ca, cb)
     asserts = [r for r in res if r[0] == 'assert']
